@@ -32,6 +32,10 @@ def configs(tier):
         add(spec('global', 'gauss-jacobi', 1, 1, 3, alpha=0.5, beta=-0.5)); add(spec('global', 'gauss-jacobi', 2, 1, 2, alpha=-0.25, beta=0.25, transform=1)); add(spec('global', 'gauss-jacobi-odd', 1, 1, 2, alpha=0.75, beta=-0.75))   # beta = -alpha: symmetric-looking parameters, non-symmetric weight
         add(spec('global', 'gauss-legendre', 2, 1, 3, 'qptotal')); add(spec('global', 'leja', 2, 1, 4, 'qpcurved', aniso=1)); add(spec('global', 'min-delta', 3, 1, 2, limits=1))
         for rule in SEQUENCE_RULES: add(spec('sequence', rule, 2, 1, 4)); add(spec('sequence', rule, 1, 1, 6, transform=1))
+        # general (not provably lower) selection: negative curved weights, with and without level limits - the set must be completed to a lower set on both routes
+        for t in ('curved', 'ipcurved', 'qpcurved'):
+            add(spec('sequence', 'leja', 2, 1, 3, t, aniso=4, limits=3)); add(spec('global', 'gauss-legendre', 2, 1, 3, t, aniso=4, limits=3)); add(spec('global', 'clenshaw-curtis', 2, 1, 3, t, aniso=4, limits=3))
+        add(spec('sequence', 'leja', 2, 1, 3, 'curved', aniso=4)); add(spec('global', 'gauss-legendre', 2, 1, 4, 'ipcurved', aniso=2, limits=2)); add(spec('global', 'leja', 3, 1, 3, 'curved', aniso=4, limits=1))
         add(spec('sequence', 'rleja', 2, 1, 6, 'level', aniso=3)); add(spec('sequence', 'leja', 2, 1, 4, limits=1)); add(spec('global', 'clenshaw-curtis', 2, 1, 4, 'level', aniso=3)); add(spec('sequence', 'min-delta', 3, 1, 5, 'qptotal', aniso=3))   # directions of very different depth
         add(spec('sequence', 'min-lebesgue', 2, 1, 4, 'qptotal', transform=1)); add(spec('sequence', 'leja', 3, 1, 3))
         add(spec('fourier', 'fourier', 2, 1, 2)); add(spec('fourier', 'fourier', 1, 1, 3, transform=1))
